@@ -230,6 +230,7 @@ type c7op struct {
 	expName string
 	done    bool
 	seq     int
+	obs     map[int][]zapcore.Field // per observer leaf: the context as read right after the call
 }
 
 func (w *c7world) zapFields(fs []c7field) []zap.Field {
@@ -744,6 +745,26 @@ func runC07(c *Ctx) {
 				}
 			}
 		}
+		// the reader of an observer does what it likes with the entry it is
+		// handed (here: it keeps a copy of the context and masks every field in
+		// place, as a test that hides tokens before comparing would): that entry
+		// is its own, no logger's later output may depend on it
+		for li, lf := range w.leaves {
+			if lf.kind != 2 {
+				continue
+			}
+			es := lf.logs.FilterMessage(op.msg).All()
+			if len(es) != 1 {
+				continue // judged at the end
+			}
+			if op.obs == nil {
+				op.obs = map[int][]zapcore.Field{}
+			}
+			op.obs[li] = append([]zapcore.Field(nil), es[0].Context...)
+			for j := range es[0].Context {
+				es[0].Context[j] = zap.String("masked-by-the-reader", "x")
+			}
+		}
 		op.done = true
 	}
 	exec := func(op *c7op) {
@@ -941,7 +962,11 @@ func runC07(c *Ctx) {
 					return
 				}
 				name = es[0].LoggerName
-				buf, err := ref.EncodeEntry(zapcore.Entry{Message: "x"}, es[0].Context)
+				ctx := es[0].Context
+				if kept, ok := op.obs[li]; ok {
+					ctx = kept // as read right after the call (the entry itself was masked then)
+				}
+				buf, err := ref.EncodeEntry(zapcore.Entry{Message: "x"}, ctx)
 				if err != nil {
 					c.Fail("C07: harness: cannot encode observed context", "%v", err)
 					return
